@@ -206,8 +206,10 @@ def check(prop: str, tier: str, seed: int, replay: str | None = None) -> int:
     crashes = []
     for stim, r in zip(stimuli, results):
         if r[0] == 'ok':
-            traces.append(r[1])
-            tstim.append(stim)
+            # one execution may yield several traces (e.g. one per block of a chain)
+            for tr in (r[1] if isinstance(r[1], list) else [r[1]]):
+                traces.append(tr)
+                tstim.append(stim)
         elif r[0] == 'crash':
             crashes.append((stim, r[1], r[2]))
         elif r[0] == 'skipped':
@@ -250,7 +252,7 @@ def check(prop: str, tier: str, seed: int, replay: str | None = None) -> int:
         nontriv = 0
         accepted = 0
         for stim, trace, v in zip(tstim, traces, verdicts):
-            h = sha(stim)
+            h = sha([stim, trace.get('hdr')])
             if h not in seen:
                 seen.add(h)
                 try:
